@@ -132,15 +132,26 @@ def gen_key(rng, family):
     return [rng.randint(33, 126) for _ in range(rng.randint(0, 24))]   # long random strings (and the empty key)
 
 
+def seq_key(t):
+    """t-th key of a family with consecutive djb2 codes: djb2([x, y]) = const + 33 x + y"""
+    return [97 + t // 33, 33 + t % 33]
+
+
 def gen_dict(rng, maxsteps):
     n = rng.randint(1, maxsteps)
-    fam = rng.choice([0, 1, 1, 2, 3, 4])
+    fam = rng.choice([0, 1, 2, 3, 4, 5, 5])
+    if fam == 5:          # fresh keys in consecutive cells, mostly insertions: fills > 80% of the 128 cells -> rehash
+        n = maxsteps
     keys = []
     c = []
     for _ in range(n):
         f = fam if fam < 4 else rng.randint(0, 3)
         r = rng.random()
-        if r < 0.55 or not keys:
+        if fam == 5 and r < 0.8:
+            k = seq_key(len(keys))
+            keys.append(k)
+            c += [0, len(k)] + k + [rng.randint(0, 10 ** 6)]
+        elif r < 0.55 or not keys:
             k = gen_key(rng, f)
             keys.append(k)
             c += [0, len(k)] + k + [rng.randint(0, 10 ** 6)]
@@ -225,7 +236,7 @@ def norm(o):
 DICT_CORPUS = [
     [0, 2, 97, 98, 5, 0, 1, 97, 7, 1, 2, 97, 98, 0, 1, 1, 120, 1, 3, 0, 0, 4, 0, 0, 2, 1, 97, 0, 2, 1, 97, 0, 3, 0, 0, 4, 0, 0],
     [0, 0, 9, 1, 0, 0, 1, 0, 1, 3, 0, 0, 2, 0, 0, 3, 0, 0],                   # the empty key
-    sum(([0, 2, 97 + j // 94, 33 + j % 94, j] for j in range(150)), []) + [3, 0, 0, 4, 0, 0, 1, 2, 97, 40, 0, 1, 2, 98, 50, 1],  # rehash
+    sum(([0, 2] + seq_key(j) + [j] for j in range(150)), []) + [3, 0, 0, 4, 0, 0] + sum(([1, 2] + seq_key(j) + [j % 3] for j in range(0, 150, 7)), []),  # rehash at the 103rd key
     sum(([0, 2, 41 + j % 3, 33 + 33 * (2 - j % 3), j] for j in range(8)), []) + [4, 0, 0, 2, 2, 42, 66, 0, 4, 0, 0, 1, 2, 41, 99, 2],
 ]
 
@@ -288,8 +299,14 @@ def run(ctx):
                 s = spec_dict(ops)
                 dist["dict"] += 1
                 dist["steps"] += len(ops)
-                nkeys = len(set(k for code, k, _ in ops if code == 0))
-                dist["dict_rehash_cases"] += nkeys > 103
+                cells = set()   # cells of the initial 128-cell table touched by an insertion (djb2 & 127): > 102 forces the rehash
+                for code, k, _ in ops:
+                    if code == 0:
+                        h = 5381
+                        for ch in k:
+                            h = (h * 33 + ch) % 2 ** 32
+                        cells.add(h & 127)
+                dist["dict_rehash_cases"] += len(cells) > 102
                 nchg = sum(1 for code, _, _ in ops if code in (0, 2))
                 ctx.case(("dict", tuple(c)), nchg >= 5, {"kind": "dict", "input": c[:60], "impl": il[:200]} if nchg >= 5 else None)
                 case = {"kind": "dict", "input": c}
